@@ -139,6 +139,14 @@ pub fn gen_case(rng: &mut Rng) -> (String, &'static str) {
         } else {
             (refimpl::sentence::surrogate_case(rng), "surrogate-escapes")
         }
+    } else if rng.chance(1, 4) {
+        (refimpl::sentence::wide_case(rng), "wide")
+    } else if rng.chance(1, 3) {
+        let mut parts = vec![];
+        let budget = 2 + rng.below(8) as i32;
+        SentenceGen::new(rng, budget).expression(&mut parts);
+        let s = join_tokens(&parts, rng);
+        (refimpl::sentence::truncation_twin(&s, rng).unwrap_or(s), "truncation-twin")
     } else {
         // a moderately deep member of a depth family (shallow enough to be in scope)
         let f = DEPTH_FAMILIES[rng.below(DEPTH_FAMILIES.len())];
@@ -189,6 +197,7 @@ pub fn run_one(args: &Args) {
             let mut rep = Report::new("C05");
             growth_monitor(&mut rep, 40);
             width_monitor(&mut rep, 1500);
+            shared_result_monitor(&mut rep, 100);
             println!("RETURNED violations={}", rep.violations_total);
         }
         return;
@@ -425,6 +434,77 @@ fn growth_monitor(rep: &mut Report, max_level: usize) {
     }
 }
 
+/// CPU time this thread has used so far, in clock ticks (1/100 s): fields 14 and 15 of /proc/thread-self/stat.
+fn thread_cpu_ticks() -> Option<u64> {
+    let t = std::fs::read_to_string("/proc/thread-self/stat").ok()?;
+    let rest = &t[t.rfind(')')? + 2..];
+    let f: Vec<&str> = rest.split(' ').collect();
+    Some(f.get(11)?.parse::<u64>().ok()? + f.get(12)?.parse::<u64>().ok()?)
+}
+
+/// Results that mention the current node several times are DAGs (the members are the same node):
+/// a chain of d such steps creates O(d) nodes, and its cost must follow the nodes created, not the
+/// size of the unfolded tree (2^d). The result is never printed here (printing unfolds by definition);
+/// it is reduced by a path of d first members. Decided on the CPU time of the searching thread with a
+/// margin of six orders of magnitude: on the unchanged code every level takes microseconds; a level that
+/// burns more than one CPU second is reported and ends the sweep.
+fn shared_result_monitor(rep: &mut Report, max_level: usize) {
+    const FAMS: [(&str, &str, &str, &str); 8] = [
+        ("list-pipe", "[@, @]", " | ", "[0]"),
+        ("hash-pipe", "{a: @, b: @}", " | ", ".a"),
+        ("list-dot", "[@, @]", ".", "[0]"),
+        ("hash-dot", "{a: @, b: @}", ".", ".a"),
+        ("list-three", "[@, @, @]", " | ", "[2]"),
+        ("mixed", "{a: [@, @], b: @}", " | ", ".a[1]"),
+        ("merge", "merge({a: @}, {b: @})", " | ", ".b"),
+        ("not_null", "[not_null(@), not_null(@)]", " | ", "[1]"),
+    ];
+    let doc = rcvar_of(&json!(7));
+    for (fam, step, sep, back) in FAMS.iter() {
+        let mut reached = 0usize;
+        let mut worst = 0u64;
+        for d in 1..=max_level {
+            let chain = (0..d).map(|_| step.to_string()).collect::<Vec<_>>().join(sep);
+            let text = format!("({}){}", chain, (0..d).map(|_| back.to_string()).collect::<String>());
+            rep.evaluations += 1;
+            let e = match guarded(|| jmespath::compile(&text)) {
+                Ok(Ok(e)) => e,
+                _ => break,
+            };
+            let t0 = thread_cpu_ticks();
+            let r = guarded(|| e.search(&doc).map(|v| v.is_number()));
+            let used = match (t0, thread_cpu_ticks()) {
+                (Some(a), Some(b)) => b.saturating_sub(a),
+                _ => 0,
+            };
+            worst = worst.max(used);
+            match r {
+                Ok(Ok(true)) => {}
+                Ok(Ok(false)) => {
+                    rep.violation("C05/shared-result-chain-wrong-value", json!({"family": fam, "level": d, "expression_head": text.chars().take(120).collect::<String>()}));
+                    break;
+                }
+                Ok(Err(_)) => break, // a refusal is not this monitor's business
+                Err(p) => {
+                    rep.violation(&format!("C05/panic-in-search/{}", panic_site(&p)), json!({"family": fam, "level": d, "panic": p}));
+                    break;
+                }
+            }
+            if used > 100 {
+                rep.violation(
+                    "C05/evaluation-time-follows-the-unfolded-size-of-a-shared-result",
+                    json!({"family": fam, "level": d, "cpu_seconds_of_this_search": used as f64 / 100.0, "expression_head": text.chars().take(120).collect::<String>(),
+                           "note": "levels below took at most a few ticks; the result has O(level) distinct nodes"}),
+                );
+                return; // one family is enough: every further one would burn seconds again
+            }
+            reached = d;
+            rep.nontrivial(refimpl::rng::fnv(format!("shared|{}|{}", fam, d).as_bytes()));
+        }
+        rep.extra.insert(format!("shared-result/{}", fam), json!({"levels": reached, "worst_cpu_ticks_of_one_search": worst}));
+    }
+}
+
 /// Wide expressions: n siblings side by side (no nesting). The value is known by construction,
 /// parser and interpreter steps must grow linearly, and nothing may refuse them for their size.
 fn width_family(name: &str, n: usize) -> Option<(String, Value)> {
@@ -447,13 +527,22 @@ fn width_family(name: &str, n: usize) -> Option<(String, Value)> {
         "cmp-list" => (format!("[{}]", rep("a == `1`", ", ")), Value::Array((0..n).map(|_| json!(true)).collect())),
         "literal-list" => (format!("[{}]", rep("`{\"k\": [1]}`", ", ")), Value::Array((0..n).map(|_| json!({"k": [1]})).collect())),
         "raw-list" => (format!("[{}]", rep("'é\\'s'", ", ")), Value::Array((0..n).map(|_| json!("é's")).collect())),
+        "group-or-chain" => (format!("{} || (a)", rep("(nope)", " || ")), json!(1)),
+        "group-list" => (format!("[{}]", rep("(a)", ", ")), Value::Array((0..n).map(|_| json!(1)).collect())),
+        "group-pipe" => (format!("(b) | {}", rep("(@)", " | ")), json!({"c": 2})),
+        "not-list" => (format!("[{}]", rep("!(a)", ", ")), Value::Array((0..n).map(|_| json!(false)).collect())),
+        "call-of-groups" => (format!("not_null({}, (a))", rep("(nope)", ", ")), json!(1)),
+        "quoted-list" => (format!("[{}]", rep("\"a\"", ", ")), Value::Array((0..n).map(|_| json!(1)).collect())),
+        "index-list" => (format!("[{}]", rep("xs[-1]", ", ")), Value::Array((0..n).map(|_| json!(3)).collect())),
+        "slice-list" => (format!("[{}]", rep("xs[1:]", ", ")), Value::Array((0..n).map(|_| json!([2, 3])).collect())),
+        "expref-args" => (format!("[{}]", rep("map(&@, xs)", ", ")), Value::Array((0..n).map(|_| json!([1, 2, 3])).collect())),
         _ => return None,
     })
 }
 
-const WIDTH_FAMILIES: [&str; 14] = [
+const WIDTH_FAMILIES: [&str; 23] = [
     "list-of-hashes", "pipe-of-hashes", "or-chain", "or-chain-early", "and-chain", "and-chain-late", "list-of-lists", "list-of-filters", "list-of-calls", "variadic-args",
-    "hash-many-keys", "cmp-list", "literal-list", "raw-list",
+    "hash-many-keys", "cmp-list", "literal-list", "raw-list", "group-or-chain", "group-list", "group-pipe", "not-list", "call-of-groups", "quoted-list", "index-list", "slice-list", "expref-args",
 ];
 
 fn width_monitor(rep: &mut Report, max_n: usize) {
@@ -540,6 +629,7 @@ pub fn run(args: &Args) {
         mark("B", 30_000_000_000);
         growth_monitor(&mut rep, if args.tier == "thorough" { 150 } else { 40 });
         width_monitor(&mut rep, if args.tier == "thorough" { 5000 } else { 1500 });
+        shared_result_monitor(&mut rep, if args.tier == "thorough" { 120 } else { 100 });
         mark("E", 30_000_000_000);
     }
     // (1) exhaustive numeric-edge slices: start/stop/step over the edge set x array lengths
